@@ -440,19 +440,21 @@ func requestString(q types.Request) string {
 func (p Prop) Run(r *core.Run) *core.Violation {
 	sc := genScenario(r)
 	if r.Tracing {
-		for i := range sc.ids {
-			r.Logf("policy %s: %s", sc.ids[i], sc.texts[i])
-		}
-		r.Logf("entities: %s", sc.entJSON)
-		b, _ := json.Marshal(sc.req)
-		r.Logf("request: %s", b)
-		r.Logf("batch request: P=%v A=%v R=%v C=%s vars=%s", sc.breq.Principal, sc.breq.Action, sc.breq.Resource, sc.breq.Context.MarshalCedar(), varsString(sc.breq.Variables))
-		for i, v := range sc.valJSON {
-			r.Logf("value %d: %s", i, v)
-		}
-		if sc.schema != nil {
-			r.Logf("schema fixture: %s", sc.schema.Name)
-		}
+		r.Quiet(func() {
+			for i := range sc.ids {
+				r.Logf("policy %s: %s", sc.ids[i], sc.texts[i])
+			}
+			r.Logf("entities: %s", sc.entJSON)
+			b, _ := json.Marshal(sc.req)
+			r.Logf("request: %s", b)
+			r.Logf("batch request: P=%v A=%v R=%v C=%s vars=%s", sc.breq.Principal, sc.breq.Action, sc.breq.Resource, sc.breq.Context.MarshalCedar(), varsString(sc.breq.Variables))
+			for i, v := range sc.valJSON {
+				r.Logf("value %d: %s", i, v)
+			}
+			if sc.schema != nil {
+				r.Logf("schema fixture: %s", sc.schema.Name)
+			}
+		})
 	}
 	sim := r.Sim
 	sim.OrderMode = verifsim.OrderCanonical
@@ -483,7 +485,9 @@ func (p Prop) Run(r *core.Run) *core.Violation {
 		r.Count("reach.runs_with_non_canonical_iteration")
 	}
 	if r.T.Pos()%53 == 0 || r.Tracing {
-		r.Sample(map[string]any{"policies": sc.texts, "ids": sc.ids, "observables": len(base), "iteration_events_ge2": sim.IterEvents, "non_canonical": sim.IterPermuted, "insertion_permuted": permuted, "schema": schemaName(sc)})
+		r.Quiet(func() {
+			r.Sample(map[string]any{"policies": sc.texts, "ids": sc.ids, "observables": len(base), "iteration_events_ge2": sim.IterEvents, "non_canonical": sim.IterPermuted, "insertion_permuted": permuted, "schema": schemaName(sc)})
+		})
 	}
 	if len(base) != len(alt) {
 		return core.Violationf("observable-count", "observable-count", "number of observables differs between schedules: %d vs %d", len(base), len(alt))
@@ -564,4 +568,3 @@ func (p Prop) Refine(v *core.Violation, t, s []uint32, exec func(t, s []uint32) 
 	out.Msg = nv.Msg + "\n  iteration sites served in non-canonical order in the minimised schedule: " + where
 	return &out
 }
-
